@@ -65,6 +65,20 @@ PROPS["C18"] = {
     "explanation": "instance sizing + component catalogue", "assumptions": [],
 }
 
+PROPS["C16"] = {
+    "modules": ["harness.c16"], "runner": "vf.c16:run", "level": "model_checking", "design_ref": "DESIGN.md 2/C16",
+    "engine": "z3 (rx2z3) + crosshair",
+    "technique": "regex/range validators translated from the live code (re._parser + AST of the applying call and lambdas) to z3 regular-expression/LIA "
+                 "terms and compared with pinned documented formats by z3; entry-point routing by CrossHair symbolic execution",
+    "level_text": "Layer 1: for every validator the language the code accepts is rebuilt from the live pattern objects, the AST of the call that applies them "
+                  "and the AST of the range lambdas, and z3 decides whether any string (length <= 64/300, all of Unicode via a minterm alphabet) is accepted by the "
+                  "code but outside the pinned documented format, or the reverse; witnesses are replayed through the real constructors. Layer 2: CrossHair "
+                  "harnesses show every entry point accepts exactly what the scalar constructor accepts.",
+    "level_note": XH_NOTE + " The translator is validated on every run against the real re/constructors on generated strings; unsupported constructs are "
+                  "CANNOT-ENCODE (exit 2), never skipped.",
+    "explanation": "validator languages vs documented formats", "assumptions": ["documented formats pinned in spec/c16_formats.json"],
+}
+
 NOT_APPLICABLE = {
     "C01": "every value on the GraphML/JSON text path crosses expat/lxml/json C code and temp files, where a symbolic value is "
            "concretised; what remains would be concrete sampling, i.e. a different technique (store-level half is decided under C04/C20)",
